@@ -57,6 +57,7 @@ def _system(case, rng, dt, K):
                           spin_dep=(case["wt"] == "uhf" and case["kind"] in trials.SPIN_DEP_H1), chol_scale=0.6)
     S = afqmc.make_system(case["kind"], norb, tuple(case["nelec"]), np.random.default_rng(seed_t), walker_type=case["wt"], dt=dt, n_walkers=K,
                           nchol=case["nchol"], ham=ham, rdm1=case.get("rdm1", "trial") if case.get("rdm1") != "random" else "random",
+                          ene0=float(np.random.default_rng(seed_t + 13).choice([0.0, -2.0, 1.5])),   # must be irrelevant for the phaseless step
                           orthonormal=False if case["kind"] in ("uhf", "rhf", "noci", "ghf") else True,
                           trial_opts={"ms_ndets": 6} if case["kind"] == "multislater" else None)
     return S
